@@ -36,6 +36,10 @@ pub enum Fault {
     /// connection (or provokes a client exception) and then falls silent without closing the
     /// socket: the client cannot flush its answer, only the heartbeat deadline ends the wait
     StalledClosingThenSilent { server_close: bool },
+    /// an unexpected channel-0 method carrying a server-chosen string (Connection.Secure with a
+    /// challenge of `pad` ASCII bytes followed by 100 three-byte characters): the client-exception
+    /// path with a reply text that is long, not ASCII, and cut at a generated alignment
+    ClientExceptionLongText { pad: u8 },
 }
 
 #[derive(Clone, Debug, Serialize, Deserialize, PartialEq)]
@@ -401,6 +405,11 @@ pub fn exec(c: &Case) -> Outcome {
             wire.push(encode(&f));
             want.push("ClientException".into());
         }
+        Fault::ClientExceptionLongText { pad } => {
+            let challenge = format!("{}{}", "x".repeat(*pad as usize), "\u{65e5}".repeat(100));
+            wire.push(encode(&AMQPFrame::Method(0, AMQPClass::Connection(Conn::Secure(connection::Secure { challenge })))));
+            want.push("ClientException".into());
+        }
         Fault::MissedHeartbeats => {
             sess.broker.call(|b, _| b.silent = true);
             want.push("MissedServerHeartbeats".into());
@@ -569,7 +578,8 @@ fn strat(_t: Tier) -> BoxedStrategy<Case> {
         20 => (any::<u8>(), kind()).prop_map(|(nth, kind)| Fault::WriteErr { nth, kind }),
         12 => (any::<u16>(), any::<u8>()).prop_map(|(offset, variant)| Fault::Malformed { offset, variant }),
         10 => (any::<u16>(), crate::gen::short_string()).prop_map(|(code, text)| Fault::ServerClose { code, text }),
-        8 => Just(Fault::ForceClientException),
+        6 => Just(Fault::ForceClientException),
+        4 => (0u8..=255).prop_map(|pad| Fault::ClientExceptionLongText { pad }),
         1 => Just(Fault::MissedHeartbeats),
         1 => any::<bool>().prop_map(|server_close| Fault::StalledClosingThenSilent { server_close }),
     ];
@@ -587,7 +597,7 @@ fn strat(_t: Tier) -> BoxedStrategy<Case> {
 pub fn parts() -> Vec<Box<dyn PartDyn>> {
     vec![Box::new(Part::<Case> {
         name: "e2e",
-        rule: "live sessions (1-4 channels on threads: idle, with a synchronous call left in flight by a withheld reply, or publishing and calling in a loop; 0-2 consumers each; optionally a delivery left half assembled) hit by one fault: EOF or an I/O error (5 kinds) at a generated byte offset of the server->client stream, an I/O error on the n-th client write, a malformed frame (3 constructions) at a frame boundary, a server Connection.Close(code, text), a frame forcing the client-exception path, or (rarely, 1 s heartbeat) server silence; oracle: the connection ends and the transport is released, every call in flight fails, later synchronous calls fail, nowait calls fail once close has returned, every consumer queue terminates, Connection::close names the root cause (variant, io kind, code/text), no panic, everything within seconds; non-trivial = the fault struck with a call in flight on another thread or with content half assembled; distinct by case hash",
+        rule: "live sessions (1-4 channels on threads: idle, with a synchronous call left in flight by a withheld reply, or publishing and calling in a loop; 0-2 consumers each; optionally a delivery left half assembled) hit by one fault: EOF or an I/O error (5 kinds) at a generated byte offset of the server->client stream, an I/O error on the n-th client write, a malformed frame (3 constructions) at a frame boundary, a server Connection.Close(code, text), a frame forcing the client-exception path (content on channel 0, or an unexpected method whose description is long, not ASCII and cut at a generated alignment), or (rarely, 1 s heartbeat) server silence; oracle: the connection ends and the transport is released, every call in flight fails, later synchronous calls fail, nowait calls fail once close has returned, every consumer queue terminates, Connection::close names the root cause (variant, io kind, code/text), no panic, everything within seconds; non-trivial = the fault struck with a call in flight on another thread or with content half assembled; distinct by case hash",
         cases: |t| t.pick(2000, 30_000),
         threads: 12,
         strategy: strat,
